@@ -754,3 +754,22 @@ class TestsPassed(Component):
     def on_event(self, interp, st, ev):
         if ev.type == "raise":
             self.raises.append((ev.exc, st.comp[self.name], ev))
+
+
+class PathConds(Component):
+    """the branch outcomes that hold on every way to the current point: frozenset of (test node id, truth); the tested
+    values are kept in `tests` (node id -> Val).  Joins intersect."""
+    name = "pathconds"
+
+    def __init__(self):
+        self.tests = {}
+
+    def init(self, interp):
+        return frozenset()
+
+    def join(self, a, b):
+        return a & b
+
+    def on_branch(self, interp, st, test_node, tv, truth):
+        self.tests[id(test_node)] = (tv, test_node)
+        st.comp[self.name] = st.comp[self.name] | {(id(test_node), truth)}
